@@ -18,6 +18,21 @@ CHECKS = {
    text="The real StringScanner is driven with every operation sequence of depth 5 (quick) / 6 (thorough) after every number of initial reads on every content up to length 4 / 6 over {x, LF, CR}, and a position-only cursor model (independent line/column forward scan) is compared after each single operation; seeded random long contents and sequences follow; in addition hook H2 checks the same invariant inside the scanner for every Read/Unread/Reset performed by the real tokenizers. Exhaustive inside the stated scope, exploration beyond.",
    note="The model (harness/model/lc.go, checks/c11.go) is written from the property statement; PeekColumn at the end-of-input slot is a documented don't-care.",
    ref="DESIGN.md §3 C11"),
+ "C14": dict(
+   technique="runtime monitor: identity and panic oracle over exhaustive small-scope and random strings on the three real quote states, stream boundary observed on a real scanner",
+   text="EncodeString/DecodeString and NextToken of the generic, expression and CSV quote states are executed on every string up to length 5 (quick) / 7 (thorough) over an alphabet with the quote, the other quote, 1-, 2-, 3- and 4-byte characters, space and LF, for four quote characters (one above U+00FF); the monitor checks decode(encode(s)) = s, that decode of arbitrary text never panics, and that encode(s)+tail is read back as exactly one token leaving the tail unread. Exhaustive inside the scope, seeded random strings up to 100 runes beyond.",
+   note="Invalid UTF-8 is out of scope; the stream clause is applied to the expression and CSV states only, as the statement says.",
+   ref="DESIGN.md §3 C14"),
+ "C16": dict(
+   technique="runtime monitor: longest-prefix reference oracle over exhaustively enumerated symbol tables, registration orders, inputs and repeated reads on the real SymbolRootNode",
+   text="Real symbol tables are built for every set of up to 3 (quick) / 4 (thorough) of the 39 strings of length 1..3 over {<,=,>} (and over {a, ш, €} for children above U+00FF) in every or seeded registration orders with distinct token types; every input of length 1..4 is read on each table twice (second pass in reverse order, so every read happens after other reads) and the monitor compares text, type and number of consumed characters with a direct longest-prefix search. Random larger tables and the built-in tokenizers' tables (before/after adding symbols) complete it.",
+   note="Symbols containing U+0000, duplicate registrations with different types and token type 0 are don't-care.",
+   ref="DESIGN.md §3 C16"),
+ "C17": dict(
+   technique="runtime monitor: newest-first interval list model with pointer identity, compared after every operation of exhaustively enumerated registration histories",
+   text="Every history of length <= 3 over 88 operations (28 endpoint ranges x 3 references, default interval x 3, clear) is applied to a real CharReferenceMap and probed at 21 characters after every operation against a list model; 40 k (quick) / 5 M (thorough) random histories up to length 30 follow; a third sub-check observes the tokenizer-level consequence (configured state returned, disabled word range stops a word, non-Latin letters reach the word state) on real tokenizers.",
+   note="Ranges ending at U+FFFF are clamped by the implementation and not asserted.",
+   ref="DESIGN.md §3 C17"),
 }
 
 NOT_YET = {}
